@@ -50,7 +50,8 @@ def make_value(rnd, counter):
     if k == 1:
         return counter + 0.5, mark, "float"
     if k == 2:
-        return "text " + mark + " é", mark, "text"
+        # (some texts begin with characters a decoder may take for a signature: a byte-order mark, a line separator)
+        return rnd.choice(["", "", "\ufeff", "\ufeff\ufeff", "\u2028", " \n"]) + "text " + mark + " é" + rnd.choice(["", "\n", "\r\n", " "]), mark, "text"
     if k == 3:
         return (mark + "\x00\xff").encode("latin-1") * 3, mark, "bytes"
     if k == 4:
